@@ -55,7 +55,7 @@ def stratified(cfgs, n, rng):
     strata = {}
     for c in cfgs:
         f = facets(c)
-        key = (f["prim"], f["form"], f["argnum"], f["kind"], f["axis_kind"], f["axis_sign"], f["nd"], f["nd2"], f["kd"], f["ia"], f["st"],
+        key = (f["prim"], f["form"], f["argnum"], f["kind"], f["axis_kind"], f["axis_sign"], f["nd"], f["nd2"], f["kd"], f["ia"], f["st"], f["square"],
                tuple(sorted(str(i.get("t")) for i in c["tp"])) if c["tp"] and isinstance(c["tp"][0], dict) else f["tp_len"])
         strata.setdefault(key, []).append(c)
     keys = sorted(strata, key=str)
@@ -266,23 +266,23 @@ def _quick_n(pid):
 
 
 def c01(tier, seed, replay=None):
-    return run_rules("C01", tier, seed, FAMILIES, 400, RULE, ASSUME)
+    return run_rules("C01", tier, seed, FAMILIES, 2500, RULE, ASSUME)
 
 
 def c02(tier, seed, replay=None):
-    return run_rules("C02", tier, seed, FAMILIES, 400, RULE, ASSUME)
+    return run_rules("C02", tier, seed, FAMILIES, 1200, RULE, ASSUME)
 
 
 def c04(tier, seed, replay=None):
-    return run_rules("C04", tier, seed, FAMILIES, 300, RULE, ASSUME)
+    return run_rules("C04", tier, seed, FAMILIES, 1000, RULE, ASSUME)
 
 
 def c05(tier, seed, replay=None):
-    return run_rules("C05", tier, seed, FAMILIES, 400, RULE, ASSUME)
+    return run_rules("C05", tier, seed, FAMILIES, 1500, RULE, ASSUME)
 
 
 def c06(tier, seed, replay=None):
-    return run_rules("C06", tier, seed, FAMILIES, 300, RULE, ASSUME)
+    return run_rules("C06", tier, seed, FAMILIES, 800, RULE, ASSUME)
 
 
 SECOND_FAMILIES = {k: v for k, v in FAMILIES.items() if k not in ("kink",)}
@@ -301,4 +301,4 @@ def c11_index(tier, seed):
 
 
 def c09(tier, seed, replay=None):
-    return run_rules("C09", tier, seed, COMPLEX_FAMILIES, 500, RULE, ASSUME)
+    return run_rules("C09", tier, seed, COMPLEX_FAMILIES, 1500, RULE, ASSUME)
